@@ -31,9 +31,11 @@ fn main() {
     let ex = "exploration";
     let (level, f): (&str, Box<dyn Fn(&ev::Run)>) = match id {
         "C01" => (mc, Box::new(|r| checks::codec::run(r, Mode::C01))),
+        "C04" => (ex, Box::new(|r| checks::amf0::run_c04(r))),
         "C06" => (mc, Box::new(|r| checks::c06::run(r))),
         "C07" => (mc, Box::new(|r| checks::codec::run(r, Mode::C07))),
         "C08" => (mc, Box::new(|r| checks::codec::run(r, Mode::C08))),
+        "C12" => (ex, Box::new(|r| checks::amf0::run_c12(r))),
         "C16" => (mc, Box::new(|r| checks::c16::run(r))),
         "C20" => (ex, Box::new(|r| checks::c20::run(r))),
         _ => usage(),
